@@ -61,7 +61,7 @@ fn table() -> Vec<(&'static str, RunFn, ReplayFn)> {
 fn main() {
     let args: Vec<String> = std::env::args().collect();
     if args.len() < 3 {
-        eprintln!("usage: nexrad-mc <Cxx> <quick|thorough> | nexrad-mc <Cxx> --replay <path>");
+        crate::core::elog!("usage: nexrad-mc <Cxx> <quick|thorough> | nexrad-mc <Cxx> --replay <path>");
         std::process::exit(3);
     }
     // process-global configuration is part of the environment the harness owns
@@ -71,7 +71,7 @@ fn main() {
     install_panic_hook();
     clock::self_test();
     let Some((prop, run, replay)) = table().into_iter().find(|(p, _, _)| *p == args[1]) else {
-        eprintln!("MACHINERY: unknown property {}", args[1]);
+        crate::core::elog!("MACHINERY: unknown property {}", args[1]);
         std::process::exit(3);
     };
     if args[2] == "--replay" {
@@ -135,13 +135,16 @@ fn main() {
             guard::ODD_BYTE_BUFFERS.store(level == log::LevelFilter::Debug, std::sync::atomic::Ordering::SeqCst);
             // ... and has every environment variable the source names set
             set_source_env_vars(level == log::LevelFilter::Debug);
+            // ... and a standard error stream that rejects every write
+            break_stderr(level == log::LevelFilter::Trace && variant_name().is_none());
             let r1 = std::panic::catch_unwind(|| run(ctx));
+            break_stderr(false);
             if r1.is_err() {
                 let p = ESCAPED_PANIC.lock().ok().and_then(|g| g.clone()).unwrap_or_else(|| "<unknown panic>".into());
                 if p.contains("/repo/") {
                     ctx.fail(&format!("panic_outside_guard:{}", panic_class(&p)), || p.clone(), || serde_json::json!({"escaped_panic": p, "logging": level.to_string()}));
                 } else {
-                    eprintln!("MACHINERY: harness panic (logging pass {level}): {p}");
+                    crate::core::elog!("MACHINERY: harness panic (logging pass {level}): {p}");
                     std::process::exit(3);
                 }
             }
@@ -156,7 +159,7 @@ fn main() {
     let code = match r {
         Ok((level, coverage, assumptions)) => {
             if s3sim::HANDLER_PANICS.load(std::sync::atomic::Ordering::SeqCst) > 0 {
-                eprintln!("MACHINERY: the S3 simulator's handler panicked; results are not trustworthy");
+                crate::core::elog!("MACHINERY: the S3 simulator's handler panicked; results are not trustworthy");
                 std::process::exit(3);
             }
             collect_variants(ctx, variants);
@@ -169,7 +172,7 @@ fn main() {
                 ctx.fail(&format!("panic_outside_guard:{}", panic_class(&p)), || p.clone(), || serde_json::json!({"escaped_panic": p}));
                 ctx.finish("other", serde_json::json!({"explanation": "aborted: the code under test panicked outside a guarded call", "evaluations": 1, "distinct_nontrivial": 0}), vec![])
             } else {
-                eprintln!("MACHINERY: harness panic: {p}");
+                crate::core::elog!("MACHINERY: harness panic: {p}");
                 3
             }
         }
